@@ -18,7 +18,8 @@ normalisation gain g is a power of two every float operation of a correct
 implementation is exact and the comparison is == on Fractions (class D);
 otherwise the explicit bound 1e-12*(1+sum|terms|) is used (class T).
 
-Not generated (statement silent / excluded by DESIGN): m=0 with size=None,
+Not generated (statement silent / excluded by DESIGN): (m=0 with size=None is
+the olaempty family of c09_x.py: nothing may be yielded or raised),
 hop>size, an all-zero window under normalisation (g undefined), empty windows,
 ola_size different from size, an explicit hop=None in the STFT wrapper, the numpy
 strategies (numpy is absent, so transform/inverse_transform/before/after/ola
